@@ -278,3 +278,27 @@ fn c16_read_footer_accepts_valid_footer() {
 	core::mem::forget(r);
 	core::mem::forget(file);
 }
+
+/// C16-O5: truncated table files: read_footer is total on every file of 0..=60 bytes (arbitrary
+/// content): it never panics (no arithmetic underflow on the footer offset, no out-of-range read)
+/// and files shorter than a full footer are rejected.
+#[kani::proof]
+#[kani::unwind(12)]
+#[kani::stub(std::fmt::format, crate::verif_models::no_format)]
+fn c16_read_footer_total_on_short_files() {
+	const MAXF: usize = 60;
+	let image: [u8; MAXF] = kani::any();
+	let file_size: usize = kani::any();
+	kani::assume(file_size <= MAXF);
+	let file: Arc<dyn File> = Arc::new(image[..file_size].to_vec());
+	let r = read_footer(Arc::clone(&file), file_size);
+	#[cfg(verif_replay)]
+	println!("REPLAY read_footer on a {}-byte file -> ok={}", file_size, r.is_ok());
+	if file_size < TABLE_FULL_FOOTER_LENGTH {
+		assert!(r.is_err(), "file shorter than a footer accepted");
+	}
+	kani::cover!(r.is_err() && file_size >= TABLE_FULL_FOOTER_LENGTH, "full-size file rejected (bad magic / handles)");
+	kani::cover!(file_size == TABLE_FULL_FOOTER_LENGTH - 1, "one byte short of a footer");
+	core::mem::forget(r);
+	core::mem::forget(file);
+}
